@@ -288,7 +288,7 @@ func runC18(c *run.Ctx) {
 	c.Rule = "seeded generator over {null,bool,int64,non-integral finite float,valid UTF-8 string,Symbol,Var,list,map with name keys}, depth<=4; " +
 		"each value written by WriteSDLValue and WriteJSONValue at indent -1,0,2 with Sort on/off and read back by ParseValueString and encoding/json; " +
 		"non-trivial = contains a container or a string with a character needing escape; distinct by SDL text at indent 0, Sort=true"
-	n := c.N(6000, 400000)
+	n := c.N(15000, 400000)
 	c.MinNontriv = n / 10
 	defer func() { ggql.Sort = false }()
 	type rec struct {
